@@ -8,6 +8,9 @@ from vlib.ecgen import P, N, R, M, G, h64
 IMPORTS = ("From Coq Require Import ZArith List String.\nFrom GmVerif Require Import Ec.Num Ec.Mont Ec.Jacobian Ec.Z256Eval Ec.PointEval.\n"
            "Import ListNotations.\nOpen Scope string_scope.\nOpen Scope Z_scope.\n")
 SHARDS = int(os.environ["VERIF_SHARDS"]) if os.environ.get("VERIF_SHARDS") else None
+# the assembly back-end on ELF: the repo's default ENABLE_ASM_UNDERSCORE_PREFIX=ON (Mach-O symbol
+# names) does not link on Linux, so the variant is registered here with the prefix switched off
+core.VARIANTS.setdefault("amd64elf", (core.SAN_FLAGS, ["-DENABLE_SM2_AMD64=ON", "-DENABLE_ASM_UNDERSCORE_PREFIX=OFF"]))
 A5 = int("a5" * 32, 16)
 
 
@@ -257,7 +260,7 @@ def run(ctx):
     t0 = time.time()
     model = eval_model(cases)
     ctx.notes.append("model (coqc vm_compute): %.1fs for %d cases" % (time.time() - t0, len(cases)))
-    variants = ["asan"] if ctx.tier == "quick" else ["asan", "amd64"]
+    variants = ["asan"] if ctx.tier == "quick" else ["asan", "amd64elf"]
     for v in variants:
         exe, log = core.build_harness("C12", v)
         if exe is None:
